@@ -251,6 +251,42 @@ def targeted_calls(ctx):
     reversed_run = bool(os.environ.get('C20_REVERSED_DUMP'))
     if reversed_run:
         calls = calls[::-1]     # the second process: the same registry, last call first
+    if os.environ.get('C20_ISOLATED_DUMP'):
+        # third process: every registered call ALONE, each in a forked copy of this freshly started process (nothing of the library has run in it): what a
+        # call returns when no other library call preceded it.  Single-threaded, so that forking is safe.
+        import time as _time
+        iso, base = {}, os.environ['C20_ISOLATED_DUMP']
+        for idx, (name, f) in enumerate(calls):
+            part = '%s.%d' % (base, idx)
+            pid_ = os.fork()
+            if pid_ == 0:
+                try:
+                    torch.manual_seed(1234); np.random.seed(1234); _random.seed(1234)
+                    torch.save(snap(f()), part)
+                except BaseException:
+                    pass
+                os._exit(0)
+            t0_ = _time.time()
+            while True:
+                done_, _st = os.waitpid(pid_, os.WNOHANG)
+                if done_:
+                    break
+                if _time.time() - t0_ > 180:
+                    try:
+                        os.kill(pid_, signal.SIGKILL); os.waitpid(pid_, 0)
+                    except Exception:
+                        pass
+                    break
+                _time.sleep(0.01)
+            if os.path.exists(part):
+                try:
+                    iso[name] = torch.load(part, weights_only=False)
+                except Exception:
+                    pass
+                os.remove(part)
+        torch.save(iso, base)
+        shutil.rmtree(tmpd, ignore_errors=True)
+        return len(calls), len(iso)
     for name, f in calls:
         first = None
         for rep in range(2):         # a second call with the same arguments must see the same arguments ...
@@ -349,6 +385,33 @@ def run(ctx):
                               {'call': nm, 'how': 'run ./check C20; the registry is executed in a second process last-call-first and the results are compared'},
                               {'fn': nm, 'what': 'order_of_calls_between_processes'})
     shutil.rmtree(os.path.dirname(dump), ignore_errors=True)
+    # ... and in a third process every registered call ALONE (forked from a freshly started interpreter): the strongest form of "does not depend on what was
+    # called before" that the registry can state - no choice of order can hide a dependence from it
+    dump3 = os.path.join(tempfile.mkdtemp(prefix='odakverif_c20i_'), 'isolated.pt')
+    env3 = dict(os.environ, C20_ISOLATED_DUMP=dump3, VERIF_SEED=str(ctx.seed), OMP_NUM_THREADS='1', MKL_NUM_THREADS='1')
+    env3.pop('VERIF_COV_FILE', None)
+    env3.pop('C20_REVERSED_DUMP', None)
+    try:
+        pr3 = subprocess.run([sys.executable, '-m', 'harness.props.C20'], cwd=os.path.dirname(os.path.dirname(os.path.dirname(os.path.abspath(__file__)))),
+                             env=env3, capture_output=True, text=True, timeout=1800)
+        alone = torch.load(dump3, weights_only=False) if os.path.exists(dump3) else None
+    except Exception as e:
+        pr3, alone = None, None
+        ctx.note('isolated run did not finish: %r' % (e,))
+    if alone is None:
+        ctx.note('isolated run produced no results%s' % ((': ' + pr3.stderr[-300:]) if pr3 is not None else ''))
+    else:
+        mine = getattr(ctx, '_first_results', {})
+        ctx.extra['registry_calls_compared_with_isolated_runs'] = len(set(mine) & set(alone))
+        for nm in sorted(set(mine) & set(alone)):
+            if nm in ORDER_EXEMPT:
+                continue
+            if not _close(mine[nm], alone[nm], rtol=1e-4):
+                ctx.violation('%s: the registered call returns another result when it is the only library call of a process than after the other registered calls '
+                              '(what it returns depends on which library calls were made before it)' % nm,
+                              {'call': nm, 'how': 'run ./check C20; every registered call is also executed alone in a forked fresh process and the results are compared'},
+                              {'fn': nm, 'what': 'order_of_calls_isolated'})
+    shutil.rmtree(os.path.dirname(dump3), ignore_errors=True)
     ctx.extra['identity_probed_callables'] = len(probe.identity_calls)
     for q, what in sorted(probe.identity_dependent.items()):
         ctx.violation('%s: %s (hidden state keyed on the identity of an argument)' % (q, what),
@@ -417,7 +480,9 @@ def replay(ctx, rep):
 ORDER_EXEMPT = set()          # registered calls whose result legitimately depends on earlier calls (none)
 
 
-if __name__ == '__main__' and os.environ.get('C20_REVERSED_DUMP'):
+if __name__ == '__main__' and (os.environ.get('C20_REVERSED_DUMP') or os.environ.get('C20_ISOLATED_DUMP')):
+    if os.environ.get('C20_ISOLATED_DUMP'):
+        torch.set_num_threads(1)
     # second process of the order-of-calls comparison: same probe, same registry, reversed order; writes the snapshots of the first results
     from ..lib import core as _core
     from ..lib.mutation_probe import Probe as _Probe
